@@ -17,6 +17,7 @@ func VerifC04Login() {
 	ver := &zzVerifier{loginOK: zzverif.Bool("verifierAccepts")}
 	pm, _ := zzOnePlugin("p0")
 	svr := zzService(ver, pm)
+	svr.cfg.Auth.Token = []string{"tok", ""}[zzverif.Choice("serverToken", 2)]
 	internal := zzverif.Bool("internal")
 	conn := &zzConn{name: "ctl"}
 	login := &msg.Login{
@@ -46,7 +47,7 @@ func VerifC04Login() {
 		// C05: the control channel is wrapped with the token-keyed cipher iff the peer is not internal
 		zzverif.Assert((zzCrypto.calls == 1) == !internal, "C05.ctl.encrypted-unless-internal")
 		if zzCrypto.calls == 1 {
-			zzverif.Assert(string(zzCrypto.last.key) == "tok", "C05.ctl.keyed-by-token")
+			zzverif.Assert(string(zzCrypto.last.key) == svr.cfg.Auth.Token, "C05.ctl.keyed-by-token")
 			zzverif.Reach("C05.ctl.encrypted")
 		}
 	} else {
